@@ -43,6 +43,7 @@ def absDi (D : DiG) : AbsDiGraph where
 /-- a `Graph` object (simple undirected graph), as seen by the family generators -/
 def absGraph (G : SimpleG) : AbsGraph where
   number_of_vertices := G.n
+  order := G.n
   number_of_edges := G.m
   vertices := ⟨1, (G.n : Int) + 1⟩
   neighbors := fun u => (G.neighbors u).map (·.map Int.ofNat)
